@@ -29,10 +29,13 @@ theorem addAtom_variant (v : Variant) (sp0 specs : List Spec) (hs : Simple sp0) 
       · have hk' : k' = k := by simpa using hcond.2.2.2
         subst hk'
         simp [hcond.1, hcond.2.1, hcond.2.2.1, hkind, Variant.code]
-      · have n1 : ¬ (t = a.t ∧ f = a.f ∧ s = a.s ∧ [k].contains k' = true ∧ (v.crossFeed = true ∨ k'.code = a.kind)) :=
+      · have n1 : ¬ (t = a.t ∧ f = a.f ∧ s = a.s ∧ [k].contains k' = true ∧
+            (v.crossFeed = true ∨ k'.code = a.kind ∨
+              v.fallbackCross = true ∧ ([k].all fun k' => k'.code != a.kind) = true)) :=
           fun h => hcond ⟨h.1, h.2.1, h.2.2.1, h.2.2.2.1⟩
         have n2 : ¬ (t = a.t ∧ f = a.f ∧ s = a.s ∧ [k].contains k' = true ∧
-            (Variant.code.crossFeed = true ∨ k'.code = a.kind)) :=
+            (Variant.code.crossFeed = true ∨ k'.code = a.kind ∨
+              Variant.code.fallbackCross = true ∧ ([k].all fun k' => k'.code != a.kind) = true)) :=
           fun h => hcond ⟨h.1, h.2.1, h.2.2.1, h.2.2.2.1⟩
         rw [if_neg n1, if_neg n2]
     · simp [hc]
